@@ -13,8 +13,18 @@ import (
 // of ownership-relevant statements: a buffer is aliased into an outgoing
 // sequence, a sequence is emitted, the parser's field is re-pointed (fresh
 // allocation, a pool Get, or a reslice of the same array), the buffer is written.
-// Conditions are ignored (statements of if-bodies are taken in order), which
-// over-approximates what can happen in one call.
+// Two renderings per function:
+//   own_<f>   : one list, conditions ignored (statements of if-bodies taken in textual order) -
+//               the coarse over-approximation of what one call can do;
+//   paths_<f> : one list PER CONTROL-FLOW PATH from entry to a return (or the end of the body):
+//               an if contributes its taken and its not-taken branch, a return ends the path, a
+//               switch contributes one path per clause (plus "no clause" without a default), a
+//               loop is accepted only when every iteration that goes on (falls out of the body,
+//               continue, break) performs no ownership action - then the loop contributes
+//               nothing, or the actions of an iteration that returns.  Conditions are not
+//               evaluated (every branch combination is a path), so the set over-approximates
+//               the feasible paths; what a merged list hides - an early return between the
+//               emit and the re-pointing of the field - is a path of its own here.
 var ownKinds = map[string]string{"intermediate": "KInter", "oscData": "KOsc", "apcData": "KApc", "dcs": "KDcs"}
 
 var ownFuncs = []string{"clear", "collect", "escapeDispatch", "csiDispatch", "oscStart", "oscPut", "oscEnd", "hook", "put", "unhook", "apcUnhook", "apc"}
@@ -94,14 +104,132 @@ func ownRHS(kind string, rhs ast.Expr) string {
 	return ""
 }
 
+// aliasing reports whether e mentions the parser buffer of the given kind in a way that keeps a
+// reference to its array: every mention except under len/cap/string(...) (which copy or only
+// measure) and except as the operand of an index expression (an element read).
+func aliasing(e ast.Expr, kind string) bool {
+	found := false
+	ast.Inspect(e, func(n ast.Node) bool {
+		switch c := n.(type) {
+		case *ast.CallExpr:
+			if id, ok := c.Fun.(*ast.Ident); ok && (id.Name == "string" || id.Name == "len" || id.Name == "cap") {
+				return false
+			}
+		case *ast.IndexExpr:
+			return false
+		}
+		if x, ok := n.(ast.Expr); ok {
+			if k, ok := pField(x); ok && k == kind {
+				found = true
+			}
+		}
+		return true
+	})
+	return found
+}
+
+var ownKindOrder = []string{"KInter", "KOsc", "KApc", "KDcs"}
+
+// simpleActs: the ownership actions of one assignment / expression / declaration statement
+func simpleActs(s ast.Stmt) []string {
+	var out []string
+	switch v := s.(type) {
+	case *ast.AssignStmt:
+		if len(v.Lhs) != 1 || len(v.Rhs) != 1 {
+			for _, r := range v.Rhs {
+				for _, kind := range ownKindOrder {
+					if aliasing(r, kind) {
+						die("%s: a parser buffer in a multi-value assignment", pos(s))
+					}
+				}
+			}
+			for _, l := range v.Lhs {
+				if _, ok := pField(l); ok {
+					die("%s: a parser buffer assigned in a multi-value assignment", pos(s))
+				}
+			}
+			return nil
+		}
+		lhs, rhs := v.Lhs[0], v.Rhs[0]
+		if k, ok := pField(lhs); ok {
+			if v.Tok != token.ASSIGN {
+				die("%s: compound assignment to a parser buffer", pos(s))
+			}
+			return []string{ownRHS(k, rhs)}
+		}
+		if isPDcsSub(lhs, "Data") {
+			// p.dcs.Data = append(p.dcs.Data, r)
+			if call, ok := rhs.(*ast.CallExpr); ok {
+				if id, ok := call.Fun.(*ast.Ident); ok && id.Name == "append" && len(call.Args) >= 1 && isPDcsSub(call.Args[0], "Data") {
+					return []string{"OWrite KDcs"}
+				}
+			}
+			die("%s: p.dcs.Data assigned outside the grammar", pos(s))
+		}
+		if ix, ok := lhs.(*ast.IndexExpr); ok {
+			// p.buffer[i] = x : a write into the current array
+			if k, ok := pField(ix.X); ok {
+				out = append(out, "OWrite "+k)
+			} else if isPDcsSub(ix.X, "Data") {
+				out = append(out, "OWrite KDcs")
+			}
+		}
+		// X = ... p.buffer ... : the buffer is aliased into an outgoing (or pending) sequence,
+		// also through a composite literal (csi := CSI{Intermediate: p.intermediate})
+		for _, kind := range ownKindOrder {
+			if aliasing(rhs, kind) {
+				out = append(out, "OAlias "+kind)
+			}
+		}
+	case *ast.ExprStmt:
+		call, ok := v.X.(*ast.CallExpr)
+		if !ok {
+			return nil
+		}
+		se, ok := call.Fun.(*ast.SelectorExpr)
+		if !ok || !isIdent(se.X, "p") || se.Sel.Name != "emit" || len(call.Args) != 1 {
+			for _, kind := range ownKindOrder {
+				if aliasing(v.X, kind) {
+					die("%s: a parser buffer is passed to a call other than p.emit", pos(s))
+				}
+			}
+			return nil
+		}
+		// string(p.apcData) copies; every other mention aliases
+		for _, kind := range ownKindOrder {
+			if aliasing(call.Args[0], kind) {
+				out = append(out, "OAlias "+kind)
+			}
+		}
+		out = append(out, "OEmit")
+	case *ast.DeclStmt:
+		ast.Inspect(v, func(n ast.Node) bool {
+			if e, ok := n.(ast.Expr); ok {
+				for _, kind := range ownKindOrder {
+					if aliasing(e, kind) {
+						die("%s: a parser buffer in a declaration", pos(s))
+					}
+				}
+				return false
+			}
+			return true
+		})
+	}
+	return out
+}
+
+// merged rendering: conditions ignored, textual order
 func ownStmts(stmts []ast.Stmt, out *[]string) {
 	for _, s := range stmts {
 		switch v := s.(type) {
 		case *ast.IfStmt:
 			ownStmts(v.Body.List, out)
 			if v.Else != nil {
-				if b, ok := v.Else.(*ast.BlockStmt); ok {
+				switch b := v.Else.(type) {
+				case *ast.BlockStmt:
 					ownStmts(b.List, out)
+				case *ast.IfStmt:
+					ownStmts([]ast.Stmt{b}, out)
 				}
 			}
 		case *ast.ForStmt:
@@ -114,75 +242,210 @@ func ownStmts(stmts []ast.Stmt, out *[]string) {
 			}
 		case *ast.BlockStmt:
 			ownStmts(v.List, out)
-		case *ast.AssignStmt:
-			if len(v.Lhs) != 1 || len(v.Rhs) != 1 {
-				continue
-			}
-			lhs, rhs := v.Lhs[0], v.Rhs[0]
-			if k, ok := pField(lhs); ok {
-				if v.Tok != token.ASSIGN {
-					die("%s: compound assignment to a parser buffer", pos(s))
-				}
-				*out = append(*out, ownRHS(k, rhs))
-				continue
-			}
-			if isPDcsSub(lhs, "Data") {
-				// p.dcs.Data = append(p.dcs.Data, r)
-				if call, ok := rhs.(*ast.CallExpr); ok {
-					if id, ok := call.Fun.(*ast.Ident); ok && id.Name == "append" && len(call.Args) >= 1 && isPDcsSub(call.Args[0], "Data") {
-						*out = append(*out, "OWrite KDcs")
-						continue
-					}
-				}
-				die("%s: p.dcs.Data assigned outside the grammar", pos(s))
-			}
-			// X.Field = p.buffer : the buffer is aliased into an outgoing (or pending) sequence
-			for _, kind := range []string{"KInter", "KOsc", "KApc"} {
-				if k, ok := pField(rhs); ok && k == kind {
-					*out = append(*out, "OAlias "+kind)
-				}
-			}
-		case *ast.ExprStmt:
-			call, ok := v.X.(*ast.CallExpr)
-			if !ok {
-				continue
-			}
-			se, ok := call.Fun.(*ast.SelectorExpr)
-			if !ok || !isIdent(se.X, "p") || se.Sel.Name != "emit" || len(call.Args) != 1 {
-				continue
-			}
-			arg := call.Args[0]
-			// string(p.apcData) copies; every other mention aliases
-			for _, kind := range []string{"KInter", "KOsc", "KApc", "KDcs"} {
-				aliased := false
-				ast.Inspect(arg, func(n ast.Node) bool {
-					if c, ok := n.(*ast.CallExpr); ok {
-						if id, ok := c.Fun.(*ast.Ident); ok && id.Name == "string" {
-							return false // conversion to string copies
-						}
-					}
-					if x, ok := n.(ast.Expr); ok {
-						if k, ok := pField(x); ok && k == kind {
-							aliased = true
-						}
-					}
-					return true
-				})
-				if aliased {
-					*out = append(*out, "OAlias "+kind)
-				}
-			}
-			*out = append(*out, "OEmit")
+		default:
+			*out = append(*out, simpleActs(s)...)
 		}
 	}
 }
+
+// ---- path-sensitive rendering
+
+// pathSet: the action lists of the ways through a statement list, by how they leave it
+type pathSet struct {
+	normal, returned, brk, cont [][]string
+}
+
+func dedup(ps [][]string) [][]string {
+	seen := map[string]bool{}
+	var out [][]string
+	for _, p := range ps {
+		k := strings.Join(p, ";")
+		if !seen[k] {
+			seen[k] = true
+			out = append(out, p)
+		}
+	}
+	return out
+}
+
+func cat(a, b []string) []string {
+	out := make([]string, 0, len(a)+len(b))
+	out = append(out, a...)
+	return append(out, b...)
+}
+
+func allEmpty(ps [][]string) bool {
+	for _, p := range ps {
+		if len(p) > 0 {
+			return false
+		}
+	}
+	return true
+}
+
+// touches: the subtree mentions a parser buffer or calls p.emit
+func touches(n ast.Node) bool {
+	found := false
+	ast.Inspect(n, func(n ast.Node) bool {
+		if e, ok := n.(ast.Expr); ok {
+			if _, ok := pField(e); ok {
+				found = true
+			}
+			if se, ok := e.(*ast.SelectorExpr); ok && isIdent(se.X, "p") && se.Sel.Name == "emit" {
+				found = true
+			}
+		}
+		return true
+	})
+	return found
+}
+
+func stmtPaths(s ast.Stmt) pathSet {
+	switch v := s.(type) {
+	case *ast.IfStmt:
+		if v.Init != nil && touches(v.Init) {
+			die("%s: if-initialiser touches a parser buffer", pos(s))
+		}
+		for _, kind := range ownKindOrder {
+			if aliasing(v.Cond, kind) {
+				die("%s: condition keeps a reference to a parser buffer", pos(s))
+			}
+		}
+		res := listPaths(v.Body.List)
+		var els pathSet
+		switch b := v.Else.(type) {
+		case nil:
+			els = pathSet{normal: [][]string{{}}}
+		case *ast.BlockStmt:
+			els = listPaths(b.List)
+		case *ast.IfStmt:
+			els = stmtPaths(b)
+		default:
+			die("%s: else branch outside the grammar", pos(s))
+		}
+		return pathSet{normal: dedup(append(res.normal, els.normal...)), returned: dedup(append(res.returned, els.returned...)),
+			brk: dedup(append(res.brk, els.brk...)), cont: dedup(append(res.cont, els.cont...))}
+	case *ast.ForStmt, *ast.RangeStmt:
+		var body *ast.BlockStmt
+		if f, ok := v.(*ast.ForStmt); ok {
+			body = f.Body
+			if (f.Init != nil && touches(f.Init)) || (f.Post != nil && touches(f.Post)) {
+				die("%s: loop header touches a parser buffer", pos(s))
+			}
+			if f.Cond != nil {
+				for _, kind := range ownKindOrder {
+					if aliasing(f.Cond, kind) {
+						die("%s: loop condition keeps a reference to a parser buffer", pos(s))
+					}
+				}
+			}
+		} else {
+			r := v.(*ast.RangeStmt)
+			body = r.Body
+			for _, kind := range ownKindOrder {
+				if aliasing(r.X, kind) {
+					die("%s: range over a parser buffer", pos(s))
+				}
+			}
+		}
+		b := listPaths(body.List)
+		if !allEmpty(b.normal) || !allEmpty(b.brk) || !allEmpty(b.cont) {
+			die("%s: a loop iteration that goes on performs ownership actions (paths would be unbounded)", pos(s))
+		}
+		return pathSet{normal: [][]string{{}}, returned: b.returned}
+	case *ast.SwitchStmt:
+		if v.Init != nil && touches(v.Init) {
+			die("%s: switch initialiser touches a parser buffer", pos(s))
+		}
+		res := pathSet{}
+		hasDefault := false
+		for _, c := range v.Body.List {
+			cc := c.(*ast.CaseClause)
+			if cc.List == nil {
+				hasDefault = true
+			}
+			ps := listPaths(cc.Body)
+			res.normal = append(res.normal, ps.normal...)
+			res.normal = append(res.normal, ps.brk...)
+			res.returned = append(res.returned, ps.returned...)
+			res.cont = append(res.cont, ps.cont...)
+		}
+		if !hasDefault {
+			res.normal = append(res.normal, []string{})
+		}
+		return pathSet{normal: dedup(res.normal), returned: dedup(res.returned), cont: dedup(res.cont)}
+	case *ast.BlockStmt:
+		return listPaths(v.List)
+	case *ast.ReturnStmt:
+		for _, r := range v.Results {
+			if touches(r) {
+				die("%s: a parser buffer is returned", pos(s))
+			}
+		}
+		return pathSet{returned: [][]string{{}}}
+	case *ast.BranchStmt:
+		if v.Label != nil {
+			die("%s: labelled branch in a buffer-touching function", pos(s))
+		}
+		switch v.Tok {
+		case token.BREAK:
+			return pathSet{brk: [][]string{{}}}
+		case token.CONTINUE:
+			return pathSet{cont: [][]string{{}}}
+		}
+		die("%s: goto/fallthrough in a buffer-touching function", pos(s))
+	case *ast.AssignStmt, *ast.ExprStmt, *ast.DeclStmt:
+		return pathSet{normal: [][]string{simpleActs(s)}}
+	case *ast.IncDecStmt, *ast.EmptyStmt:
+		return pathSet{normal: [][]string{{}}}
+	}
+	if touches(s) {
+		die("%s: statement kind outside the ownership grammar touches a parser buffer", pos(s))
+	}
+	return pathSet{normal: [][]string{{}}}
+}
+
+func listPaths(stmts []ast.Stmt) pathSet {
+	res := pathSet{}
+	cur := [][]string{{}}
+	for _, s := range stmts {
+		if len(cur) == 0 {
+			break // unreachable code after return/break on every path
+		}
+		ps := stmtPaths(s)
+		var next [][]string
+		for _, pre := range cur {
+			for _, x := range ps.returned {
+				res.returned = append(res.returned, cat(pre, x))
+			}
+			for _, x := range ps.brk {
+				res.brk = append(res.brk, cat(pre, x))
+			}
+			for _, x := range ps.cont {
+				res.cont = append(res.cont, cat(pre, x))
+			}
+			for _, x := range ps.normal {
+				next = append(next, cat(pre, x))
+			}
+		}
+		cur = dedup(next)
+		if len(cur) > 4096 {
+			die("%s: more than 4096 paths", pos(s))
+		}
+	}
+	res.normal = cur
+	res.returned, res.brk, res.cont = dedup(res.returned), dedup(res.brk), dedup(res.cont)
+	return res
+}
+
+func coqActs(acts []string) string { return "[" + strings.Join(acts, "; ") + "]" }
 
 func init() {
 	register("GenOwn", func(repo string) string {
 		f := parseFile(filepath.Join(repo, "ansi", "parser.go"))
 		var b strings.Builder
 		b.WriteString("From Vx Require Import model.ParserOwnTypes.\n\n")
-		var names []string
+		var names, pnames []string
 		for _, name := range ownFuncs {
 			fd := findFunc(f, "Parser", name)
 			if fd == nil {
@@ -195,8 +458,20 @@ func init() {
 			ownStmts(fd.Body.List, &acts)
 			fmt.Fprintf(&b, "Definition own_%s : list oact := [%s].\n", name, strings.Join(acts, "; "))
 			names = append(names, "own_"+name)
+			ps := listPaths(fd.Body.List)
+			if len(ps.brk) > 0 || len(ps.cont) > 0 {
+				die("ansi/parser.go: %s: break/continue outside a loop or switch", name)
+			}
+			all := dedup(append(ps.returned, ps.normal...))
+			var rendered []string
+			for _, p := range all {
+				rendered = append(rendered, coqActs(p))
+			}
+			fmt.Fprintf(&b, "Definition paths_%s : list (list oact) := [%s].\n", name, strings.Join(rendered, "; "))
+			pnames = append(pnames, "paths_"+name)
 		}
 		fmt.Fprintf(&b, "\nDefinition own_all : list (list oact) := [%s].\n", strings.Join(names, "; "))
+		fmt.Fprintf(&b, "\n(* one action list per control-flow path of each function, same order as own_all *)\nDefinition own_paths : list (list (list oact)) := [%s].\n", strings.Join(pnames, "; "))
 		// any other function that assigns one of the buffers is outside the table: refuse
 		known := map[string]bool{}
 		for _, n := range ownFuncs {
